@@ -616,7 +616,7 @@ fn run_line(ctx: &mut SrvCtx, line: &str, errno: Option<i32>) -> String {
         "ASYNC" => live::run_live(false, &t[1..]),
         "CONC" => live::run_conc(&t[1..]),
         "SERSRV" => live::run_sersrv(&t[1..]),
-        "SERE2E" => live::run_sere2e(&t[1..]),
+        "E2E" => live::run_e2e(&t[1..]),
         _ => "ERR cmd".into(),
     }
 }
